@@ -31,6 +31,15 @@ def run(ctx):
             # four and more segments with a wildcard directory that has siblings (each sibling is searched with the whole rest
             # of the pattern); names that are also reachable through a symlinked directory some levels up
             'pkg/*/lib/mod.py', '*/*/lib/*', 'pkg/*/*/mod.py', 'pkg/?/lib/*.py', 'f2.txt', 's2/*', 's1/*/f2.txt', '*/s2/*']
+    # pathlib's normalisation of result keys never merges two different files: names made of dots and line feeds
+    with trees.Tree([('\n', 'f', None), ('.\n', 'f', None), ('a', 'd', None), ('a/\n', 'f', None), ('a/.\n', 'f', None), ('a/x', 'f', None), ('..\n', 'f', None)]) as TN:
+        for pl_, fl_ in ((['*', '.*'], PL.DOTGLOB), (['.*', '*'], PL.DOTGLOB), (['a/.?', 'a/?'], PL.DOTGLOB), (['a/?', 'a/.?'], 0), (['.?', '..?', '?'], 0)):
+            evals += 1
+            a_ = sorted(os.path.relpath(str(p_), TN.root) for p_ in PL.Path(TN.root).glob(pl_, flags=fl_))
+            b_ = sorted(Gm.glob(pl_, flags=fl_, root_dir=TN.root))
+            if a_ != b_:
+                ctx.counterexample('Path.glob(%r, %s) = %r but glob.glob gives %r (two different files share a normalised key?)' % (pl_, corr.flag_names(fl_), a_, b_),
+                                   {'patterns': pl_, 'flags': corr.flag_names(fl_), 'tree': ['\n', '.\n', 'a/\n', 'a/.\n', 'a/x', '..\n']})
     for ti in range(len(trees.DESIGNED) + (3 if ctx.quick else 30)):
         spec = trees.DESIGNED[ti] if ti < len(trees.DESIGNED) else trees.random_spec(rng, size=rng.randint(5, 12))
         deepx = [('pkg', 'd', None), ('pkg/x', 'd', None), ('pkg/x/lib', 'd', None), ('pkg/x/lib/mod.py', 'f', None), ('pkg/y', 'd', None), ('pkg/y/lib', 'd', None),
